@@ -1,1 +1,1187 @@
-// stub
+//! cw20-ics20 family: C11 (escrow covers outstanding vouchers, channel by channel; arbitrary
+//! counterparty), C12 (channel balance identity, ack <=> effect, packet contents; honest
+//! counterparty, governance configurations, legacy-storage upgrade arm), C18 (allow list is
+//! governance-only and only loosens; payouts carry the right gas limit).
+pub mod chain;
+
+use chain::*;
+use cosmwasm_std::{
+    coins, to_json_binary, to_json_vec, Addr, Binary, Coin, IbcAcknowledgement, IbcChannel, IbcChannelConnectMsg, IbcEndpoint,
+    IbcOrder, IbcPacket, IbcPacketAckMsg, IbcPacketReceiveMsg, IbcPacketTimeoutMsg, IbcTimeout, Uint128, WasmMsg,
+};
+use cw20::{BalanceResponse, Cw20Coin, Cw20ExecuteMsg, Cw20QueryMsg};
+use cw20_ics20::msg::{AllowMsg, ExecuteMsg, InitMsg, MigrateMsg, QueryMsg, TransferMsg};
+use cw_multi_test::{BankSudo, Executor, SudoMsg};
+use cw_storage_plus::Map;
+use proptest::prelude::*;
+use serde::{Deserialize, Serialize};
+use std::collections::BTreeMap;
+use vcore::amounts::pick;
+use vcore::{CaseCtx, Family, PropSpec, Tier, Violation};
+
+pub const N_USERS: usize = 4;
+pub const N_NATIVE: usize = 2;
+pub const N_CW20: usize = 3;
+pub const N_TOK: usize = N_NATIVE + N_CW20;
+pub const NATIVE: [&str; N_NATIVE] = ["uatom", "ujuno"];
+pub const DEFAULT_TIMEOUT: u64 = 1000;
+
+// ------------------------------------------------------------------ case types
+
+#[derive(Clone, Copy, Debug, Serialize, Deserialize, PartialEq)]
+pub enum SendAmt {
+    Abs(u128),
+    /// k/256 of the sender's balance
+    Frac(u8),
+}
+
+#[derive(Clone, Copy, Debug, Serialize, Deserialize, PartialEq)]
+pub enum DenomForm {
+    /// counterparty_port/counterparty_channel/<local denom>: the only redeemable form
+    Right,
+    /// <local denom> without any prefix (a token that "originated remotely")
+    Bare,
+    WrongPort,
+    WrongChannel,
+    /// prefix of another of our channels' counterparty
+    OtherChannel(u8),
+    /// prefix applied twice
+    Nested,
+    /// right prefix, unknown base denom
+    UnknownBase,
+}
+
+#[derive(Clone, Copy, Debug, Serialize, Deserialize, PartialEq)]
+pub enum RecvAmt {
+    Abs(u128),
+    /// outstanding balance of that channel/denom + delta
+    Outstanding(i8),
+    /// what the (honest) counterparty holds + delta
+    RemoteHeld(i8),
+    /// k/256 of the outstanding balance
+    Frac(u8),
+}
+
+#[derive(Clone, Copy, Debug, Serialize, Deserialize, PartialEq)]
+pub enum Who {
+    Gov,
+    Former(u8),
+    User(u8),
+}
+
+#[derive(Clone, Debug, Serialize, Deserialize, PartialEq)]
+pub enum Op {
+    SendNative { by: u8, ch: u8, denom: u8, amt: SendAmt, timeout: Option<u32>, memo: Option<String> },
+    SendCw20 { by: u8, ch: u8, tok: u8, amt: SendAmt, timeout: Option<u32>, memo: Option<String> },
+    /// the counterparty marks one of our in-flight packets as received (mints vouchers)
+    Deliver { pkt: u16 },
+    /// `live`: when set, (ch, tok) are replaced by the k-th (channel, token) pair that currently has an
+    /// outstanding balance (malicious) / vouchers held by the counterparty (honest)
+    Recv { ch: u8, tok: u8, live: Option<u16>, form: DenomForm, amt: RecvAmt, receiver: u8, payout_fails: bool, memo: bool },
+    RecvRaw { ch: u8, bytes: Vec<u8> },
+    Ack { pkt: u16, ok: bool, refund_fails: bool },
+    Timeout { pkt: u16, refund_fails: bool },
+    Allow { by: Who, tok: u8, gas: Option<u64> },
+    UpdateAdmin { by: Who, to: u8 },
+    Migrate { default_gas: Option<u64> },
+    Advance { secs: u16 },
+}
+
+#[derive(Clone, Debug, Serialize, Deserialize, PartialEq)]
+pub struct Legacy {
+    /// 0: 0.11.1 (v1 config), 1: 0.12.1, 2: 0.13.0 (v2: outstanding counts only acked sends)
+    pub version: u8,
+    /// per token: (acked amount booked in CHANNEL_STATE, in-flight amounts held but unbooked)
+    pub tokens: Vec<(u8, u64, Vec<u32>)>,
+    /// cw20 tokens (index 0..N_CW20) that are on the allow list of the legacy contract
+    pub listed: Vec<bool>,
+    pub migrate_default_gas: Option<u64>,
+}
+
+#[derive(Clone, Debug, Serialize, Deserialize, PartialEq)]
+pub struct Case {
+    pub channels: u8,
+    pub allow: Vec<(u8, Option<u64>)>,
+    pub default_gas: Option<u64>,
+    pub legacy: Option<Legacy>,
+    pub malicious: bool,
+    pub ops: Vec<Op>,
+}
+
+// ------------------------------------------------------------------ strategies
+
+fn user() -> impl Strategy<Value = u8> {
+    0u8..N_USERS as u8
+}
+fn gas() -> BoxedStrategy<Option<u64>> {
+    prop_oneof![2 => Just(None), 1 => Just(Some(0u64)), 4 => (1u64..1_000_000).prop_map(Some), 1 => Just(Some(u64::MAX))].boxed()
+}
+fn send_amt() -> BoxedStrategy<SendAmt> {
+    prop_oneof![
+        12 => (1u128..2000).prop_map(SendAmt::Abs),
+        1 => Just(SendAmt::Abs(0)),
+        1 => Just(SendAmt::Abs(u64::MAX as u128)),
+        1 => Just(SendAmt::Abs(u64::MAX as u128 + 1)),
+        1 => Just(SendAmt::Abs(1u128 << 100)),
+        2 => any::<u8>().prop_map(SendAmt::Frac),
+    ]
+    .boxed()
+}
+fn memo() -> BoxedStrategy<Option<String>> {
+    prop_oneof![3 => Just(None), 1 => Just(Some(String::new())), 2 => "[a-z{}\":]{1,12}".prop_map(Some)].boxed()
+}
+fn who() -> BoxedStrategy<Who> {
+    prop_oneof![4 => Just(Who::Gov), 2 => (0u8..3).prop_map(Who::Former), 2 => user().prop_map(Who::User)].boxed()
+}
+fn form(malicious: bool) -> BoxedStrategy<DenomForm> {
+    if malicious {
+        prop_oneof![8 => Just(DenomForm::Right), 2 => Just(DenomForm::Bare), 2 => Just(DenomForm::WrongPort), 2 => Just(DenomForm::WrongChannel), 3 => (0u8..3).prop_map(DenomForm::OtherChannel), 1 => Just(DenomForm::Nested), 1 => Just(DenomForm::UnknownBase)].boxed()
+    } else {
+        prop_oneof![12 => Just(DenomForm::Right), 1 => Just(DenomForm::Bare)].boxed()
+    }
+}
+fn recv_amt(malicious: bool) -> BoxedStrategy<RecvAmt> {
+    if malicious {
+        prop_oneof![
+            4 => (0u128..2000).prop_map(RecvAmt::Abs),
+            6 => (-2i8..=2).prop_map(RecvAmt::Outstanding),
+            5 => any::<u8>().prop_map(RecvAmt::Frac),
+            1 => Just(RecvAmt::Abs(u64::MAX as u128 + 7)),
+            1 => Just(RecvAmt::Abs(u128::MAX)),
+        ]
+        .boxed()
+    } else {
+        prop_oneof![5 => (-1i8..=0).prop_map(RecvAmt::RemoteHeld), 6 => any::<u8>().prop_map(RecvAmt::Frac), 2 => (1u128..50).prop_map(RecvAmt::Abs)].boxed()
+    }
+}
+
+fn op(prop: &str, malicious: bool) -> BoxedStrategy<Op> {
+    let send_n = (user(), prop_oneof![15 => 0u8..3, 1 => Just(3u8)], 0u8..N_NATIVE as u8, send_amt(), proptest::option::weighted(0.4, 1u32..5000), memo()).prop_map(|(by, ch, denom, amt, timeout, memo)| Op::SendNative { by, ch, denom, amt, timeout, memo }).boxed();
+    let send_c = (user(), prop_oneof![15 => 0u8..3, 1 => Just(3u8)], 0u8..N_CW20 as u8, send_amt(), proptest::option::weighted(0.4, 1u32..5000), memo()).prop_map(|(by, ch, tok, amt, timeout, memo)| Op::SendCw20 { by, ch, tok, amt, timeout, memo }).boxed();
+    let deliver = any::<u16>().prop_map(|pkt| Op::Deliver { pkt }).boxed();
+    let recv = (0u8..3, 0u8..N_TOK as u8, proptest::option::weighted(0.8, any::<u16>()), form(malicious), recv_amt(malicious), prop_oneof![12 => 0u8..N_USERS as u8, 1 => Just(N_USERS as u8)], proptest::bool::weighted(0.2), proptest::bool::weighted(0.2))
+        .prop_map(|(ch, tok, live, form, amt, receiver, payout_fails, memo)| Op::Recv { ch, tok, live, form, amt, receiver, payout_fails, memo })
+        .boxed();
+    let raw = (0u8..3, prop_oneof![proptest::collection::vec(any::<u8>(), 0..40), "[{}\":,a-z0-9]{0,60}".prop_map(|s| s.into_bytes())]).prop_map(|(ch, bytes)| Op::RecvRaw { ch, bytes }).boxed();
+    let ack = (any::<u16>(), proptest::bool::weighted(0.6), proptest::bool::weighted(0.25)).prop_map(|(pkt, ok, refund_fails)| Op::Ack { pkt, ok, refund_fails }).boxed();
+    let timeout = (any::<u16>(), proptest::bool::weighted(0.25)).prop_map(|(pkt, refund_fails)| Op::Timeout { pkt, refund_fails }).boxed();
+    let allow = (who(), 0u8..N_CW20 as u8, gas()).prop_map(|(by, tok, gas)| Op::Allow { by, tok, gas }).boxed();
+    let upd = (who(), 0u8..3).prop_map(|(by, to)| Op::UpdateAdmin { by, to }).boxed();
+    let mig = gas().prop_map(|default_gas| Op::Migrate { default_gas }).boxed();
+    let adv = (0u16..3000).prop_map(|secs| Op::Advance { secs }).boxed();
+    match prop {
+        "C18" => prop_oneof![2 => send_n, 8 => send_c, 2 => deliver, 7 => recv, 4 => ack, 2 => timeout, 12 => allow, 4 => upd, 3 => mig, 1 => adv].boxed(),
+        "C11" => prop_oneof![7 => send_n, 7 => send_c, 2 => deliver, 14 => recv, 1 => raw, 5 => ack, 3 => timeout, 1 => allow, 1 => adv].boxed(),
+        _ => prop_oneof![7 => send_n, 7 => send_c, 4 => deliver, 12 => recv, 2 => raw, 6 => ack, 3 => timeout, 2 => allow, 1 => upd, 1 => mig, 1 => adv].boxed(),
+    }
+}
+
+fn legacy() -> BoxedStrategy<Legacy> {
+    (0u8..3, proptest::collection::vec((0u8..N_TOK as u8, 0u64..3000, proptest::collection::vec(1u32..500, 0..3)), 1..4), proptest::collection::vec(any::<bool>(), N_CW20), gas())
+        .prop_map(|(version, tokens, listed, migrate_default_gas)| Legacy { version, tokens, listed, migrate_default_gas })
+        .boxed()
+}
+
+pub fn case_strategy(prop: &str, tier: Tier) -> BoxedStrategy<Case> {
+    let max_ops = match tier {
+        Tier::Quick => 36usize,
+        Tier::Thorough => 90usize,
+    };
+    let p = prop.to_string();
+    let malicious = match prop {
+        "C11" => Just(true).boxed(),
+        "C12" => Just(false).boxed(),
+        _ => any::<bool>().boxed(),
+    };
+    let leg = if prop == "C12" { proptest::option::weighted(0.3, legacy()).boxed() } else { Just(None).boxed() };
+    (malicious, leg)
+        .prop_flat_map(move |(mal, leg)| {
+            let channels = if leg.is_some() { Just(1u8).boxed() } else { (1u8..=3).boxed() };
+            // most tokens allowed so that transfers are live; C18 starts from sparser lists
+            let allow = proptest::collection::vec((0u8..N_CW20 as u8, gas()), if p == "C18" { 0..3 } else { 1..4 });
+            (Just(mal), Just(leg), channels, allow, gas(), proptest::collection::vec(op(&p, mal), 0..max_ops))
+        })
+        .prop_map(|(malicious, legacy, channels, allow, default_gas, ops)| Case { channels, allow, default_gas, legacy, malicious, ops })
+        .boxed()
+}
+
+// ------------------------------------------------------------------ wire formats written from the specs (not from the contract)
+
+/// ICS-20 fungible token packet data, JSON wire format
+#[derive(Serialize, Deserialize, Clone, Debug, PartialEq)]
+struct WirePacket {
+    amount: Uint128,
+    denom: String,
+    receiver: String,
+    sender: String,
+    #[serde(skip_serializing_if = "Option::is_none")]
+    #[serde(default)]
+    memo: Option<String>,
+}
+
+#[derive(Deserialize, Clone, Debug)]
+#[serde(rename_all = "snake_case")]
+enum AmountW {
+    Native(Coin),
+    Cw20(Cw20Coin),
+}
+impl AmountW {
+    fn denom(&self) -> String {
+        match self {
+            AmountW::Native(c) => c.denom.clone(),
+            AmountW::Cw20(c) => format!("cw20:{}", c.address),
+        }
+    }
+    fn amount(&self) -> u128 {
+        match self {
+            AmountW::Native(c) => c.amount.u128(),
+            AmountW::Cw20(c) => c.amount.u128(),
+        }
+    }
+}
+#[derive(Deserialize, Clone, Debug)]
+struct ChannelW {
+    balances: Vec<AmountW>,
+    total_sent: Vec<AmountW>,
+}
+#[derive(Deserialize, Clone, Debug, PartialEq)]
+struct ConfigW {
+    default_timeout: u64,
+    default_gas_limit: Option<u64>,
+    gov_contract: String,
+}
+#[derive(Deserialize, Clone, Debug)]
+struct AllowedInfoW {
+    contract: String,
+    gas_limit: Option<u64>,
+}
+#[derive(Deserialize, Clone, Debug)]
+struct ListAllowedW {
+    allow: Vec<AllowedInfoW>,
+}
+#[derive(Deserialize, Clone, Debug)]
+struct AdminW {
+    admin: Option<String>,
+}
+
+// frozen legacy storage layouts (cw20-ics20 0.11.1 .. 0.13.0)
+#[derive(Serialize)]
+struct LegacyConfigV1 {
+    default_timeout: u64,
+    gov_contract: Addr,
+}
+#[derive(Serialize)]
+struct LegacyChannelState {
+    outstanding: Uint128,
+    total_sent: Uint128,
+}
+#[derive(Serialize)]
+struct LegacyVersion {
+    contract: String,
+    version: String,
+}
+const L_CHANNEL_STATE: Map<(&str, &str), Uint128> = Map::new("channel_state");
+const L_ALLOW_LIST: Map<&Addr, Uint128> = Map::new("allow_list");
+
+// ------------------------------------------------------------------ world
+
+#[derive(Clone, Debug, PartialEq)]
+struct Obs {
+    /// per channel: denom -> (outstanding, total_sent)
+    chans: Vec<BTreeMap<String, (u128, u128)>>,
+    hold: [u128; N_TOK],
+    users: Vec<[u128; N_TOK]>,
+    cfg: ConfigW,
+    admin: Option<String>,
+    allowed: BTreeMap<String, Option<u64>>,
+    n_sent: usize,
+}
+
+#[derive(Clone, Copy, Debug, PartialEq)]
+enum PState {
+    InFlight,
+    Delivered,
+    Done,
+}
+
+#[derive(Clone, Debug)]
+struct Pkt {
+    ch: usize,
+    tok: usize,
+    amount: u128,
+    sender: String,
+    data: Binary,
+    timeout: IbcTimeout,
+    state: PState,
+    seq: u64,
+}
+
+struct World {
+    app: IApp,
+    users: Vec<Addr>,
+    govs: Vec<Addr>,
+    wasm_admin: Addr,
+    relayer: Addr,
+    ics20: Addr,
+    code: u64,
+    cw20: Vec<Addr>,
+    n_ch: usize,
+}
+
+fn chan_id(i: usize) -> String {
+    format!("channel-{i}")
+}
+fn remote_chan_id(i: usize) -> String {
+    format!("channel-{i}9")
+}
+const REMOTE_PORT: &str = "transfer";
+
+impl World {
+    fn port(&self) -> String {
+        format!("wasm.{}", self.ics20)
+    }
+    fn local_denom(&self, tok: usize) -> String {
+        if tok < N_NATIVE {
+            NATIVE[tok].to_string()
+        } else {
+            format!("cw20:{}", self.cw20[tok - N_NATIVE])
+        }
+    }
+    fn balance(&self, who: &Addr, tok: usize) -> Result<u128, String> {
+        if tok < N_NATIVE {
+            Ok(self.app.wrap().query_balance(who.to_string(), NATIVE[tok]).map_err(|e| e.to_string())?.amount.u128())
+        } else {
+            Ok(try_query::<BalanceResponse, _>(&self.app, &self.cw20[tok - N_NATIVE], &Cw20QueryMsg::Balance { address: who.to_string() })?.balance.u128())
+        }
+    }
+    fn observe(&self) -> Result<Obs, String> {
+        let mut chans = vec![];
+        for i in 0..self.n_ch {
+            let c: ChannelW = try_query(&self.app, &self.ics20, &QueryMsg::Channel { id: chan_id(i) })?;
+            let mut m: BTreeMap<String, (u128, u128)> = BTreeMap::new();
+            for b in &c.balances {
+                if m.insert(b.denom(), (b.amount(), 0)).is_some() {
+                    return Err(format!("Channel{{{}}} lists denom {} twice", chan_id(i), b.denom()));
+                }
+            }
+            for t in &c.total_sent {
+                m.entry(t.denom()).or_insert((0, 0)).1 = t.amount();
+            }
+            chans.push(m);
+        }
+        let mut hold = [0u128; N_TOK];
+        for (t, h) in hold.iter_mut().enumerate() {
+            *h = self.balance(&self.ics20, t)?;
+        }
+        let mut users = vec![];
+        for u in &self.users {
+            let mut row = [0u128; N_TOK];
+            for (t, r) in row.iter_mut().enumerate() {
+                *r = self.balance(u, t)?;
+            }
+            users.push(row);
+        }
+        let cfg: ConfigW = try_query(&self.app, &self.ics20, &QueryMsg::Config {})?;
+        let admin: AdminW = try_query(&self.app, &self.ics20, &QueryMsg::Admin {})?;
+        let mut allowed = BTreeMap::new();
+        let mut cursor: Option<String> = None;
+        loop {
+            let page: ListAllowedW = try_query(&self.app, &self.ics20, &QueryMsg::ListAllowed { start_after: cursor.clone(), limit: Some(30) })?;
+            if page.allow.is_empty() {
+                break;
+            }
+            cursor = page.allow.last().map(|a| a.contract.clone());
+            for a in page.allow {
+                allowed.insert(a.contract, a.gas_limit);
+            }
+            if allowed.len() > 1000 {
+                return Err("ListAllowed does not terminate".into());
+            }
+        }
+        Ok(Obs { chans, hold, users, cfg, admin: admin.admin, allowed, n_sent: sent_packets(&self.app).len() })
+    }
+    fn outstanding(o: &Obs, ch: usize, denom: &str) -> u128 {
+        o.chans.get(ch).and_then(|m| m.get(denom)).map(|x| x.0).unwrap_or(0)
+    }
+}
+
+fn v(prop: &str, sig: &str, msg: String) -> Violation {
+    Violation::new(prop, &format!("{prop}/{sig}"), msg)
+}
+
+fn gas_le(a: Option<u64>, b: Option<u64>) -> bool {
+    match (a, b) {
+        (_, None) => true,
+        (None, Some(_)) => false,
+        (Some(x), Some(y)) => x <= y,
+    }
+}
+
+#[derive(Debug, Clone)]
+enum Done {
+    Send { by: usize, ch: usize, tok: usize, amount: u128, ok: bool, timeout: Option<u32>, memo: Option<String>, remote: String, ch_exists: bool },
+    Recv { ch: usize, tok: Option<usize>, form: Option<DenomForm>, amount: u128, receiver: Option<usize>, result: Result<Option<Binary>, String>, injected: bool },
+    AckOrTimeout { pkt: usize, success_ack: bool, result: Result<(), String>, injected: bool },
+    Allow { by: Addr, tok: usize, gas: Option<u64>, ok: bool },
+    UpdateAdmin { by: Addr, ok: bool },
+    Migrate { ok: bool, default_gas: Option<u64> },
+    Other,
+}
+
+// ------------------------------------------------------------------ interpreter
+
+pub fn run_case(prop: &str, case: &Case, ctx: &mut CaseCtx) -> Result<(), Violation> {
+    let mut app = new_app();
+    app.update_block(|b| b.time = cosmwasm_std::Timestamp::from_seconds(b.time.seconds()));
+    let users: Vec<Addr> = (0..N_USERS).map(|i| app.api().addr_make(&format!("user{i}"))).collect();
+    let govs: Vec<Addr> = (0..3).map(|i| app.api().addr_make(&format!("gov{i}"))).collect();
+    let wasm_admin = app.api().addr_make("wasm-admin");
+    let relayer = app.api().addr_make("relayer");
+    let faucet = app.api().addr_make("faucet");
+    let rich: u128 = 1u128 << 66;
+    for u in &users {
+        for d in NATIVE {
+            app.sudo(SudoMsg::Bank(BankSudo::Mint { to_address: u.to_string(), amount: coins(rich, d) })).expect("mint");
+        }
+    }
+    let ccode = app.store_code(flaky_cw20_contract());
+    let mut cw20 = vec![];
+    for i in 0..N_CW20 {
+        let msg = cw20_base::msg::InstantiateMsg {
+            name: format!("Token {i}"),
+            symbol: "TOK".into(),
+            decimals: 6,
+            initial_balances: users.iter().map(|u| Cw20Coin { address: u.to_string(), amount: Uint128::new(rich) }).chain(std::iter::once(Cw20Coin { address: faucet.to_string(), amount: Uint128::new(rich) })).collect(),
+            mint: None,
+            marketing: None,
+        };
+        cw20.push(app.instantiate_contract(ccode, faucet.clone(), &msg, &[], format!("tok{i}"), None).expect("cw20"));
+    }
+    let code = app.store_code(ics20_contract());
+    let mut allow_init: BTreeMap<usize, Option<u64>> = BTreeMap::new();
+    if let Some(l) = &case.legacy {
+        for (i, on) in l.listed.iter().enumerate() {
+            if *on && i < N_CW20 {
+                allow_init.insert(i, None);
+            }
+        }
+    } else {
+        for (t, g) in &case.allow {
+            allow_init.insert(*t as usize % N_CW20, *g);
+        }
+    }
+    let init = InitMsg {
+        default_timeout: DEFAULT_TIMEOUT,
+        gov_contract: govs[0].to_string(),
+        allowlist: allow_init.iter().map(|(t, g)| AllowMsg { contract: cw20[*t].to_string(), gas_limit: *g }).collect(),
+        default_gas_limit: if case.legacy.is_some() { None } else { case.default_gas },
+    };
+    let ics20 = app.instantiate_contract(code, faucet.clone(), &init, &[], "ics20", Some(wasm_admin.to_string())).expect("ics20 instantiate");
+    let n_ch = case.channels.clamp(1, 3) as usize;
+    let mut w = World { app, users, govs, wasm_admin, relayer, ics20, code, cw20, n_ch };
+    for i in 0..n_ch {
+        let channel = IbcChannel::new(IbcEndpoint { port_id: w.port(), channel_id: chan_id(i) }, IbcEndpoint { port_id: REMOTE_PORT.into(), channel_id: remote_chan_id(i) }, IbcOrder::Unordered, "ics20-1", "connection-0");
+        try_sudo(&mut w.app, &w.ics20.clone(), &Shim::ChannelConnect { msg: IbcChannelConnectMsg::new_ack(channel, "ics20-1") }).expect("channel connect");
+    }
+    let qerr = |e: String| v(prop, "query-failed", format!("a query failed or panicked: {e}"));
+
+    // ---- ledgers
+    let mut pkts: Vec<Pkt> = vec![];
+    let mut sent = vec![[0u128; N_TOK]; n_ch];
+    let mut failed = vec![[0u128; N_TOK]; n_ch];
+    let mut redeemed = vec![[0u128; N_TOK]; n_ch];
+    let mut escrowed = vec![[0u128; N_TOK]; n_ch];
+    let mut paid = vec![[0u128; N_TOK]; n_ch];
+    let mut remote_held = vec![[0u128; N_TOK]; n_ch];
+    let mut former_admins: Vec<Addr> = vec![];
+    let mut seq: u64 = 0;
+    let mut allow_changed = false;
+
+    // ---- legacy arm: fabricate the old storage image, then migrate
+    if let Some(l) = &case.legacy {
+        let c = w.ics20.clone();
+        let mut booked: BTreeMap<usize, (u128, Vec<u32>)> = BTreeMap::new();
+        for (t, acked, inflight) in &l.tokens {
+            let e = booked.entry(*t as usize % N_TOK).or_insert((0, vec![]));
+            e.0 += *acked as u128;
+            e.1.extend(inflight.iter().cloned());
+        }
+        for (tok, (acked, inflight)) in &booked {
+            let denom = w.local_denom(*tok);
+            let total: u128 = *acked + inflight.iter().map(|x| *x as u128).sum::<u128>();
+            // the old contract holds everything it was sent
+            if total > 0 {
+                if *tok < N_NATIVE {
+                    w.app.sudo(SudoMsg::Bank(BankSudo::Mint { to_address: c.to_string(), amount: coins(total, NATIVE[*tok]) })).expect("mint");
+                } else {
+                    w.app.execute_contract(faucet.clone(), w.cw20[*tok - N_NATIVE].clone(), &Cw20ExecuteMsg::Transfer { recipient: c.to_string(), amount: Uint128::new(total) }, &[]).expect("fund");
+                }
+            }
+            // v2 semantics: only acknowledged sends are booked
+            let key = L_CHANNEL_STATE.key((&chan_id(0), &denom)).to_vec();
+            let val = to_json_vec(&LegacyChannelState { outstanding: Uint128::new(*acked), total_sent: Uint128::new(*acked) }).unwrap();
+            try_sudo(&mut w.app, &c, &Shim::RawSet { key: key.into(), value: val.into() }).expect("rawset");
+            sent[0][*tok] += *acked;
+            escrowed[0][*tok] += *acked;
+            remote_held[0][*tok] += *acked;
+            for (k, a) in inflight.iter().enumerate() {
+                let sender = w.users[k % N_USERS].to_string();
+                let data = to_json_binary(&WirePacket { amount: Uint128::new(*a as u128), denom: denom.clone(), receiver: "remote-old".into(), sender: sender.clone(), memo: None }).unwrap();
+                seq += 1;
+                pkts.push(Pkt { ch: 0, tok: *tok, amount: *a as u128, sender, data, timeout: IbcTimeout::with_timestamp(w.app.block_info().time.plus_seconds(5000)), state: PState::InFlight, seq });
+                // after the migration in-flight sends count as sent
+                sent[0][*tok] += *a as u128;
+                escrowed[0][*tok] += *a as u128;
+            }
+        }
+        // cw20 tokens outside the legacy allow list: remove the entries the fresh instantiate created (none: only listed ones were created)
+        let _ = &L_ALLOW_LIST;
+        let version = match l.version % 3 {
+            0 => "0.11.1",
+            1 => "0.12.1",
+            _ => "0.13.0",
+        };
+        if l.version % 3 == 0 {
+            let val = to_json_vec(&LegacyConfigV1 { default_timeout: DEFAULT_TIMEOUT, gov_contract: w.govs[0].clone() }).unwrap();
+            try_sudo(&mut w.app, &c, &Shim::RawSet { key: b"ics20_config".to_vec().into(), value: val.into() }).expect("rawset");
+            try_sudo(&mut w.app, &c, &Shim::RawRemove { key: b"admin".to_vec().into() }).expect("rawremove");
+        }
+        let val = to_json_vec(&LegacyVersion { contract: "crates.io:cw20-ics20".into(), version: version.into() }).unwrap();
+        try_sudo(&mut w.app, &c, &Shim::RawSet { key: b"contract_info".to_vec().into(), value: val.into() }).expect("rawset");
+        let r = try_migrate(&mut w.app, &w.wasm_admin.clone(), &c, &MigrateMsg { default_gas_limit: l.migrate_default_gas }, w.code);
+        if let Err(e) = r {
+            return Err(v(prop, "legacy-migrate-failed", format!("migrating a fabricated {version} storage image failed: {e}")));
+        }
+        ctx.flag("legacy");
+    }
+
+    let mut pre = w.observe().map_err(qerr)?;
+    check_state(prop, &w, &pre, &sent, &failed, &redeemed, &escrowed, &paid, "after setup", ctx)?;
+
+    for (step_no, op) in case.ops.iter().enumerate() {
+        let block_time = w.app.block_info().time;
+        let unfinished: Vec<usize> = pkts.iter().enumerate().filter(|(_, p)| p.state != PState::Done).map(|(i, _)| i).collect();
+        let done: Done = match op {
+            Op::Advance { secs } => {
+                let s = *secs as u64;
+                w.app.update_block(|b| {
+                    b.height += 1;
+                    b.time = b.time.plus_seconds(s);
+                });
+                Done::Other
+            }
+            Op::SendNative { by, ch, denom, amt, timeout, memo } | Op::SendCw20 { by, ch, tok: denom, amt, timeout, memo } => {
+                let is_native = matches!(op, Op::SendNative { .. });
+                let by = *by as usize % N_USERS;
+                let tok = if is_native { *denom as usize % N_NATIVE } else { N_NATIVE + *denom as usize % N_CW20 };
+                // ch == 3 addresses a channel that was never connected
+                let ch_exists = *ch < 3;
+                let chx = if ch_exists { *ch as usize % n_ch } else { 99 };
+                let amount = match amt {
+                    SendAmt::Abs(a) => *a,
+                    SendAmt::Frac(k) => ((pre.users[by][tok] >> 8) * (*k as u128 + 1)).min(u64::MAX as u128),
+                };
+                let remote = format!("remote-user-{}", step_no % 3);
+                let tmsg = TransferMsg { channel: if ch_exists { chan_id(chx) } else { "channel-77".into() }, remote_address: remote.clone(), timeout: timeout.map(|t| t as u64), memo: memo.clone() };
+                let r = if is_native {
+                    try_exec(&mut w.app, &w.users[by].clone(), &w.ics20.clone(), &ExecuteMsg::Transfer(tmsg), &[Coin::new(amount, NATIVE[tok])])
+                } else {
+                    try_exec(&mut w.app, &w.users[by].clone(), &w.cw20[tok - N_NATIVE].clone(), &Cw20ExecuteMsg::Send { contract: w.ics20.to_string(), amount: Uint128::new(amount), msg: to_json_binary(&tmsg).unwrap() }, &[])
+                };
+                Done::Send { by, ch: chx, tok, amount, ok: r.is_ok(), timeout: *timeout, memo: memo.clone(), remote, ch_exists }
+            }
+            Op::Deliver { pkt } => {
+                let cand: Vec<usize> = unfinished.iter().cloned().filter(|i| pkts[*i].state == PState::InFlight).collect();
+                if !cand.is_empty() {
+                    let i = cand[pick(*pkt, cand.len())];
+                    pkts[i].state = PState::Delivered;
+                    remote_held[pkts[i].ch][pkts[i].tok] += pkts[i].amount;
+                }
+                Done::Other
+            }
+            Op::Recv { ch, tok, live, form, amt, receiver, payout_fails, memo } => {
+                let mut chx = *ch as usize % n_ch;
+                let mut tok = *tok as usize % N_TOK;
+                if let Some(k) = live {
+                    let mut pairs: Vec<(usize, usize)> = vec![];
+                    for c in 0..n_ch {
+                        for t in 0..N_TOK {
+                            let alive = if case.malicious { World::outstanding(&pre, c, &w.local_denom(t)) > 0 } else { remote_held[c][t] > 0 };
+                            if alive {
+                                pairs.push((c, t));
+                            }
+                        }
+                    }
+                    if !pairs.is_empty() {
+                        let (c, t) = pairs[pick(*k, pairs.len())];
+                        chx = c;
+                        tok = t;
+                    }
+                }
+                let base = w.local_denom(tok);
+                let denom = match form {
+                    DenomForm::Right => format!("{REMOTE_PORT}/{}/{base}", remote_chan_id(chx)),
+                    DenomForm::Bare => base.clone(),
+                    DenomForm::WrongPort => format!("transfer2/{}/{base}", remote_chan_id(chx)),
+                    DenomForm::WrongChannel => format!("{REMOTE_PORT}/channel-424242/{base}"),
+                    DenomForm::OtherChannel(k) => format!("{REMOTE_PORT}/{}/{base}", remote_chan_id((chx + 1 + *k as usize % 2) % 3)),
+                    DenomForm::Nested => format!("{REMOTE_PORT}/{}/{REMOTE_PORT}/{}/{base}", remote_chan_id(chx), remote_chan_id(chx)),
+                    DenomForm::UnknownBase => format!("{REMOTE_PORT}/{}/unknowndenom", remote_chan_id(chx)),
+                };
+                let out = World::outstanding(&pre, chx, &base);
+                let held = remote_held[chx][tok];
+                let rel = |b: u128, d: i8| if d >= 0 { b.saturating_add(d as u128) } else { b.saturating_sub((-(d as i16)) as u128) };
+                let mut amount = match amt {
+                    RecvAmt::Abs(a) => *a,
+                    RecvAmt::Outstanding(d) => rel(out, *d),
+                    RecvAmt::RemoteHeld(d) => rel(held, *d),
+                    RecvAmt::Frac(k) => {
+                        let b = if case.malicious { out } else { held };
+                        ((b as f64) * ((*k as f64 + 1.0) / 256.0)) as u128
+                    }
+                };
+                let mut eff_form = *form;
+                if !case.malicious {
+                    // the honest counterparty only returns vouchers it holds
+                    if matches!(form, DenomForm::Right) {
+                        amount = amount.min(held);
+                    } else {
+                        eff_form = DenomForm::Bare;
+                    }
+                }
+                let (rcv_ix, rcv_str) = if (*receiver as usize) < N_USERS { (Some(*receiver as usize), w.users[*receiver as usize].to_string()) } else { (None, "not-a-valid-address".to_string()) };
+                let data = to_json_binary(&WirePacket { amount: Uint128::new(amount), denom, receiver: rcv_str.clone(), sender: "remote-sender".into(), memo: if *memo { Some("hello".into()) } else { None } }).unwrap();
+                // fault injection for this step only
+                let inject = *payout_fails;
+                if inject {
+                    if tok < N_NATIVE {
+                        set_blocked(&rcv_str, true);
+                    } else {
+                        let _ = try_sudo(&mut w.app, &w.cw20[tok - N_NATIVE].clone(), &FlakyCtl::Set { on: true });
+                    }
+                }
+                seq += 1;
+                let packet = IbcPacket::new(data, IbcEndpoint { port_id: REMOTE_PORT.into(), channel_id: remote_chan_id(chx) }, IbcEndpoint { port_id: w.port(), channel_id: chan_id(chx) }, seq, IbcTimeout::with_timestamp(block_time.plus_seconds(600)));
+                let r = try_sudo(&mut w.app, &w.ics20.clone(), &Shim::Receive { msg: IbcPacketReceiveMsg::new(packet, w.relayer.clone()) });
+                if inject {
+                    if tok < N_NATIVE {
+                        set_blocked(&rcv_str, false);
+                    } else {
+                        let _ = try_sudo(&mut w.app, &w.cw20[tok - N_NATIVE].clone(), &FlakyCtl::Set { on: false });
+                    }
+                }
+                Done::Recv { ch: chx, tok: Some(tok), form: Some(eff_form), amount, receiver: rcv_ix, result: r.map(|x| x.data), injected: inject }
+            }
+            Op::RecvRaw { ch, bytes } => {
+                let chx = *ch as usize % n_ch;
+                seq += 1;
+                let packet = IbcPacket::new(Binary::from(bytes.clone()), IbcEndpoint { port_id: REMOTE_PORT.into(), channel_id: remote_chan_id(chx) }, IbcEndpoint { port_id: w.port(), channel_id: chan_id(chx) }, seq, IbcTimeout::with_timestamp(block_time.plus_seconds(600)));
+                let r = try_sudo(&mut w.app, &w.ics20.clone(), &Shim::Receive { msg: IbcPacketReceiveMsg::new(packet, w.relayer.clone()) });
+                Done::Recv { ch: chx, tok: None, form: None, amount: 0, receiver: None, result: r.map(|x| x.data), injected: false }
+            }
+            Op::Ack { pkt, .. } | Op::Timeout { pkt, .. } => {
+                if unfinished.is_empty() {
+                    Done::Other
+                } else {
+                    let (want_ok, refund_fails, is_timeout) = match op {
+                        Op::Ack { ok, refund_fails, .. } => (*ok, *refund_fails, false),
+                        Op::Timeout { refund_fails, .. } => (false, *refund_fails, true),
+                        _ => unreachable!(),
+                    };
+                    let i = unfinished[pick(*pkt, unfinished.len())];
+                    // an honest chain never reports failure for a packet it has processed
+                    let success = if pkts[i].state == PState::Delivered { true } else { want_ok && !is_timeout };
+                    let p = pkts[i].clone();
+                    let inject = refund_fails && !success;
+                    if inject {
+                        if p.tok < N_NATIVE {
+                            set_blocked(&p.sender, true);
+                        } else {
+                            let _ = try_sudo(&mut w.app, &w.cw20[p.tok - N_NATIVE].clone(), &FlakyCtl::Set { on: true });
+                        }
+                    }
+                    let original = IbcPacket::new(p.data.clone(), IbcEndpoint { port_id: w.port(), channel_id: chan_id(p.ch) }, IbcEndpoint { port_id: REMOTE_PORT.into(), channel_id: remote_chan_id(p.ch) }, p.seq, p.timeout.clone());
+                    let r = if is_timeout && !success {
+                        try_sudo(&mut w.app, &w.ics20.clone(), &Shim::Timeout { msg: IbcPacketTimeoutMsg::new(original, w.relayer.clone()) })
+                    } else {
+                        let ack = if success { br#"{"result":"AQ=="}"#.to_vec() } else { br#"{"error":"remote refused the packet"}"#.to_vec() };
+                        try_sudo(&mut w.app, &w.ics20.clone(), &Shim::Ack { msg: IbcPacketAckMsg::new(IbcAcknowledgement::new(ack), original, w.relayer.clone()) })
+                    };
+                    if inject {
+                        if p.tok < N_NATIVE {
+                            set_blocked(&p.sender, false);
+                        } else {
+                            let _ = try_sudo(&mut w.app, &w.cw20[p.tok - N_NATIVE].clone(), &FlakyCtl::Set { on: false });
+                        }
+                    }
+                    Done::AckOrTimeout { pkt: i, success_ack: success, result: r.map(|_| ()), injected: inject }
+                }
+            }
+            Op::Allow { by, tok, gas } => {
+                let who = resolve_who(&w, by, &pre, &former_admins);
+                let tok = *tok as usize % N_CW20;
+                let r = try_exec(&mut w.app, &who, &w.ics20.clone(), &ExecuteMsg::Allow(AllowMsg { contract: w.cw20[tok].to_string(), gas_limit: *gas }), &[]);
+                Done::Allow { by: who, tok, gas: *gas, ok: r.is_ok() }
+            }
+            Op::UpdateAdmin { by, to } => {
+                let who = resolve_who(&w, by, &pre, &former_admins);
+                let r = try_exec(&mut w.app, &who, &w.ics20.clone(), &ExecuteMsg::UpdateAdmin { admin: w.govs[*to as usize % 3].to_string() }, &[]);
+                Done::UpdateAdmin { by: who, ok: r.is_ok() }
+            }
+            Op::Migrate { default_gas } => {
+                let r = try_migrate(&mut w.app, &w.wasm_admin.clone(), &w.ics20.clone(), &MigrateMsg { default_gas_limit: *default_gas }, w.code);
+                Done::Migrate { ok: r.is_ok(), default_gas: *default_gas }
+            }
+        };
+        let subs = sublog();
+        let post = w.observe().map_err(qerr)?;
+        let at = format!("step {step_no} {:?} -> {:?}", op, done);
+
+        // ---------------- ledger updates + per-step oracles
+        match &done {
+            Done::Send { by, ch, tok, amount, ok, timeout, memo, remote, ch_exists } => {
+                ctx.count(if *ok { "op_send_ok" } else { "op_send_fail" });
+                if *ok {
+                    // funds really moved
+                    let moved = post.hold[*tok].saturating_sub(pre.hold[*tok]);
+                    let left = pre.users[*by][*tok].saturating_sub(post.users[*by][*tok]);
+                    if !*ch_exists {
+                        return Err(v(prop, "send-on-unknown-channel", format!("{at}: a transfer on a channel that was never connected was accepted")));
+                    }
+                    if prop == "C11" || prop == "C12" {
+                        if moved != *amount || left != *amount {
+                            return Err(v(prop, "escrow-not-received", format!("{at}: accepted transfer of {amount}: contract holdings rose by {moved}, sender balance fell by {left}")));
+                        }
+                    }
+                    escrowed[*ch][*tok] += moved;
+                    sent[*ch][*tok] += moved;
+                    // the packet as seen by IBC core
+                    let all = sent_packets(&w.app);
+                    if prop == "C12" {
+                        if all.len() != pre.n_sent + 1 {
+                            return Err(v(prop, "packet-count", format!("{at}: accepted transfer emitted {} packets, expected exactly one", all.len() as i64 - pre.n_sent as i64)));
+                        }
+                        let sp = all.last().unwrap();
+                        let parsed: Result<WirePacket, _> = cosmwasm_std::from_json(&sp.data);
+                        let Ok(wp) = parsed else {
+                            return Err(v(prop, "packet-format", format!("{at}: packet data is not ICS-20 JSON: {}", String::from_utf8_lossy(sp.data.as_slice()))));
+                        };
+                        let raw: serde_json::Value = serde_json::from_slice(sp.data.as_slice()).unwrap_or(serde_json::Value::Null);
+                        let want_timeout = IbcTimeout::with_timestamp(block_time.plus_seconds(timeout.map(|t| t as u64).unwrap_or(DEFAULT_TIMEOUT)));
+                        let want_sender = w.users[*by].to_string();
+                        let mut bad: Vec<String> = vec![];
+                        if sp.channel_id != chan_id(*ch) {
+                            bad.push(format!("channel {} != {}", sp.channel_id, chan_id(*ch)));
+                        }
+                        if sp.sender != w.ics20.as_str() {
+                            bad.push(format!("emitted by {}", sp.sender));
+                        }
+                        if wp.amount.u128() != moved {
+                            bad.push(format!("amount {} != escrowed {}", wp.amount, moved));
+                        }
+                        if wp.amount.u128() > u64::MAX as u128 {
+                            bad.push(format!("amount {} exceeds 2^64-1", wp.amount));
+                        }
+                        if wp.denom != w.local_denom(*tok) {
+                            bad.push(format!("denom {} != {}", wp.denom, w.local_denom(*tok)));
+                        }
+                        if wp.sender != want_sender {
+                            bad.push(format!("sender {} != {}", wp.sender, want_sender));
+                        }
+                        if wp.receiver != *remote {
+                            bad.push(format!("receiver {} != {}", wp.receiver, remote));
+                        }
+                        if wp.memo != *memo || (memo.is_none() && raw.get("memo").is_some()) {
+                            bad.push(format!("memo {:?} != {:?}", wp.memo, memo));
+                        }
+                        if sp.timeout != want_timeout {
+                            bad.push(format!("timeout {:?} != {:?}", sp.timeout, want_timeout));
+                        }
+                        if !bad.is_empty() {
+                            return Err(v(prop, "packet-content", format!("{at}: emitted packet differs from the accepted transfer: {}", bad.join("; "))));
+                        }
+                    }
+                    if prop == "C18" && *tok >= N_NATIVE {
+                        let listed = pre.allowed.contains_key(w.cw20[*tok - N_NATIVE].as_str());
+                        if !listed && pre.cfg.default_gas_limit.is_none() {
+                            return Err(v(prop, "unlisted-cw20-accepted", format!("{at}: a cw20 transfer was accepted although the token is not on the allow list and no default gas limit is configured")));
+                        }
+                        ctx.flag("cw20_transfer_accepted");
+                    }
+                    if let Some(sp) = all.last() {
+                        if all.len() == pre.n_sent + 1 {
+                            seq += 1;
+                            pkts.push(Pkt { ch: *ch, tok: *tok, amount: moved, sender: w.users[*by].to_string(), data: sp.data.clone(), timeout: sp.timeout.clone(), state: PState::InFlight, seq });
+                        }
+                    }
+                    ctx.flag("sent");
+                } else {
+                    if post != pre {
+                        return Err(v(prop, "refused-transfer-changed-state", format!("{at}: a refused transfer changed state")));
+                    }
+                }
+            }
+            Done::Recv { ch, tok, form, amount, receiver, result, injected } => {
+                let ack = match result {
+                    Ok(Some(d)) => d.clone(),
+                    Ok(None) => {
+                        if prop == "C12" {
+                            return Err(v(prop, "no-acknowledgement", format!("{at}: packet handled without an acknowledgement")));
+                        }
+                        Binary::default()
+                    }
+                    Err(e) => {
+                        if prop == "C12" {
+                            return Err(v(prop, "receive-aborted", format!("{at}: handling an incoming packet failed instead of answering with an error acknowledgement: {e}")));
+                        }
+                        // for the other properties an aborted receive is simply a packet that was not processed
+                        if post != pre {
+                            return Err(v(prop, "aborted-receive-changed-state", format!("{at}: aborted receive changed state")));
+                        }
+                        pre = post;
+                        continue;
+                    }
+                };
+                let ackv: serde_json::Value = serde_json::from_slice(ack.as_slice()).unwrap_or(serde_json::Value::Null);
+                let success = ackv.get("result").is_some() && ackv.get("error").is_none();
+                let is_error = ackv.get("error").is_some();
+                if prop == "C12" && !success && !is_error {
+                    return Err(v(prop, "ack-format", format!("{at}: acknowledgement is neither {{result}} nor {{error}}: {}", String::from_utf8_lossy(ack.as_slice()))));
+                }
+                ctx.count(if success { "recv_success_ack" } else { "recv_error_ack" });
+                let moved_any = post.users != pre.users || post.hold != pre.hold;
+                if success {
+                    ctx.flag("recv_success");
+                    let (Some(tok), Some(form)) = (tok, form) else {
+                        return Err(v(prop, "garbage-packet-accepted", format!("{at}: a packet with undecodable data got a success acknowledgement")));
+                    };
+                    let base = w.local_denom(*tok);
+                    let out_pre = World::outstanding(&pre, *ch, &base);
+                    let out_post = World::outstanding(&post, *ch, &base);
+                    let gained = receiver.map(|r| post.users[r][*tok].saturating_sub(pre.users[r][*tok])).unwrap_or(0);
+                    if prop == "C11" && (!matches!(form, DenomForm::Right) || *amount > out_pre) {
+                        return Err(v(prop, "foreign-or-excess-packet-released", format!("{at}: packet with denom form {:?} and amount {amount} (channel outstanding {out_pre}) got a success acknowledgement", form)));
+                    }
+                    if prop == "C12" {
+                        if gained != *amount || receiver.is_none() {
+                            return Err(v(prop, "success-ack-without-full-payout", format!("{at}: success acknowledgement but the receiver gained {gained} of {amount}")));
+                        }
+                        if out_pre.checked_sub(*amount) != Some(out_post) {
+                            return Err(v(prop, "success-ack-balance", format!("{at}: success acknowledgement: channel balance went {out_pre} -> {out_post}, amount {amount}")));
+                        }
+                    }
+                    // ledgers follow the observed effects
+                    let released = pre.hold[*tok].saturating_sub(post.hold[*tok]);
+                    paid[*ch][*tok] += released;
+                    redeemed[*ch][*tok] += *amount;
+                    remote_held[*ch][*tok] = remote_held[*ch][*tok].saturating_sub(*amount);
+                    if *amount > 0 {
+                        ctx.flag("redeemed");
+                    }
+                } else {
+                    ctx.flag("recv_error");
+                    if *injected {
+                        ctx.flag("payout_failure_injected");
+                    }
+                    match form {
+                        Some(DenomForm::Right) => {
+                            if !*injected {
+                                ctx.count("error_ack_insufficient_or_other")
+                            } else {
+                                ctx.count("error_ack_failed_payout")
+                            }
+                        }
+                        Some(_) => ctx.count("error_ack_bad_denom"),
+                        None => ctx.count("error_ack_garbage"),
+                    }
+                    if prop == "C12" && post != pre {
+                        let sig = "error-ack-changed-state";
+                        let msg = format!("{at}: the packet was answered with an error acknowledgement ({}) but state changed: channels {:?} -> {:?}, holdings {:?} -> {:?}", String::from_utf8_lossy(ack.as_slice()), pre.chans, post.chans, pre.hold, post.hold);
+                        if !ctx.tolerate("C12/error-ack-changed-state") {
+                            return Err(v(prop, sig, msg));
+                        }
+                    }
+                    if prop == "C11" && moved_any {
+                        return Err(v(prop, "error-ack-released-funds", format!("{at}: error acknowledgement but balances moved")));
+                    }
+                    // keep the identity ledger aligned with a tolerated divergence
+                    if let Some(tok) = tok {
+                        let base = w.local_denom(*tok);
+                        let d = World::outstanding(&pre, *ch, &base).saturating_sub(World::outstanding(&post, *ch, &base));
+                        redeemed[*ch][*tok] += d;
+                    }
+                }
+                if prop == "C18" {
+                    check_gas(prop, &w, &pre, &subs, &at, ctx, allow_changed)?;
+                }
+            }
+            Done::AckOrTimeout { pkt, success_ack, result, injected } => {
+                let p = pkts[*pkt].clone();
+                match result {
+                    Ok(()) => {
+                        pkts[*pkt].state = PState::Done;
+                        if *success_ack {
+                            ctx.count("ack_success");
+                            if p.state == PState::InFlight {
+                                remote_held[p.ch][p.tok] += p.amount;
+                            }
+                            if post != pre {
+                                return Err(v(prop, "success-ack-changed-state", format!("{at}: acknowledging a delivered packet changed balances or channel state")));
+                            }
+                        } else {
+                            ctx.count("ack_failure");
+                            ctx.flag("refund_processed");
+                            if *injected {
+                                ctx.flag("refund_failure_injected");
+                            }
+                            let released = pre.hold[p.tok].saturating_sub(post.hold[p.tok]);
+                            paid[p.ch][p.tok] += released;
+                            let base = w.local_denom(p.tok);
+                            let d = World::outstanding(&pre, p.ch, &base).saturating_sub(World::outstanding(&post, p.ch, &base));
+                            failed[p.ch][p.tok] += d;
+                            if prop == "C12" && d != p.amount {
+                                return Err(v(prop, "failed-send-balance", format!("{at}: a failed/timed-out send of {} reduced the channel balance by {d}", p.amount)));
+                            }
+                            if released > 0 {
+                                ctx.flag("refunded");
+                            }
+                        }
+                        if prop == "C18" {
+                            check_gas(prop, &w, &pre, &subs, &at, ctx, allow_changed)?;
+                        }
+                    }
+                    Err(_) => {
+                        ctx.count("ack_handling_failed");
+                        if post != pre {
+                            return Err(v(prop, "failed-ack-changed-state", format!("{at}: failed acknowledgement handling changed state")));
+                        }
+                    }
+                }
+            }
+            Done::Allow { by, tok, gas, ok } => {
+                ctx.count(if *ok { "op_allow_ok" } else { "op_allow_fail" });
+                if prop == "C18" {
+                    let was_admin = pre.admin.as_deref() == Some(by.as_str());
+                    let key = w.cw20[*tok].to_string();
+                    let old = pre.allowed.get(&key).cloned();
+                    if *ok {
+                        if !was_admin {
+                            return Err(v(prop, "allow-by-non-governance", format!("{at}: Allow succeeded for a sender that is not the governance address {:?}", pre.admin)));
+                        }
+                        if post.allowed.get(&key) != Some(gas) {
+                            return Err(v(prop, "allow-not-applied", format!("{at}: after a successful Allow the token's entry is {:?}", post.allowed.get(&key))));
+                        }
+                        if let Some(o) = old {
+                            if !gas_le(o, *gas) {
+                                return Err(v(prop, "gas-limit-lowered", format!("{at}: gas limit lowered from {:?} to {:?}", o, gas)));
+                            }
+                            if o != *gas {
+                                ctx.flag("accepted_raise");
+                            }
+                        }
+                        allow_changed = true;
+                    } else if was_admin {
+                        if let Some(o) = old {
+                            if !gas_le(o, *gas) {
+                                ctx.flag("refused_lowering");
+                            }
+                        }
+                    }
+                    if !was_admin && former_admins.contains(by) {
+                        ctx.flag("attempt_by_former_gov");
+                    }
+                }
+            }
+            Done::UpdateAdmin { by, ok } => {
+                if prop == "C18" {
+                    let was_admin = pre.admin.as_deref() == Some(by.as_str());
+                    if *ok && !was_admin {
+                        return Err(v(prop, "admin-changed-by-non-governance", format!("{at}: UpdateAdmin succeeded for a sender that is not the governance address {:?}", pre.admin)));
+                    }
+                    if !was_admin && former_admins.contains(by) {
+                        ctx.flag("attempt_by_former_gov");
+                    }
+                }
+                if *ok && post.admin != pre.admin {
+                    if let Some(a) = &pre.admin {
+                        former_admins.push(Addr::unchecked(a.clone()));
+                    }
+                }
+            }
+            Done::Migrate { ok, default_gas } => {
+                ctx.count(if *ok { "op_migrate_ok" } else { "op_migrate_fail" });
+                if *ok && default_gas.is_some() {
+                    allow_changed = true;
+                }
+            }
+            Done::Other => {}
+        }
+
+        // governance state changes only through the governance address (C18)
+        if prop == "C18" {
+            let gov_op_by: Option<&Addr> = match &done {
+                Done::Allow { by, ok: true, .. } | Done::UpdateAdmin { by, ok: true } => Some(by),
+                _ => None,
+            };
+            let is_migrate_ok = matches!(done, Done::Migrate { ok: true, .. });
+            if post.allowed != pre.allowed || post.admin != pre.admin {
+                let legit = gov_op_by.map(|b| pre.admin.as_deref() == Some(b.as_str())).unwrap_or(false);
+                if !legit {
+                    return Err(v(prop, "governance-state-changed", format!("{at}: allow list or admin changed ({:?} -> {:?}, {:?} -> {:?}) outside a successful call of the governance address", pre.allowed, post.allowed, pre.admin, post.admin)));
+                }
+            }
+            for (k, old) in &pre.allowed {
+                match post.allowed.get(k) {
+                    None => return Err(v(prop, "token-removed", format!("{at}: allowed token {k} was removed"))),
+                    Some(new) => {
+                        if !gas_le(*old, *new) {
+                            return Err(v(prop, "gas-limit-lowered", format!("{at}: gas limit of {k} lowered {:?} -> {:?}", old, new)));
+                        }
+                    }
+                }
+            }
+            if pre.cfg.default_gas_limit.is_some() && post.cfg.default_gas_limit.is_none() {
+                return Err(v(prop, "default-gas-unset", format!("{at}: the default gas limit went from {:?} to none", pre.cfg.default_gas_limit)));
+            }
+            if post.cfg != pre.cfg && !is_migrate_ok && post.cfg.gov_contract == pre.cfg.gov_contract {
+                return Err(v(prop, "config-changed", format!("{at}: config changed {:?} -> {:?} outside migrate", pre.cfg, post.cfg)));
+            }
+        }
+
+        check_state(prop, &w, &post, &sent, &failed, &redeemed, &escrowed, &paid, &at, ctx)?;
+        pre = post;
+    }
+
+    // ---------------- non-triviality
+    ctx.nontrivial = match prop {
+        "C11" => ctx.has("redeemed") && ctx.has("refund_processed") && (ctx.has("payout_failure_injected") || ctx.has("refund_failure_injected") || ctx.has("same_token_two_channels")),
+        "C12" => ctx.has("recv_success") && ctx.has("recv_error"),
+        "C18" => [ctx.has("accepted_raise"), ctx.has("refused_lowering"), ctx.has("payout_after_change"), ctx.has("attempt_by_former_gov")].iter().filter(|x| **x).count() >= 2,
+        _ => false,
+    };
+    Ok(())
+}
+
+fn resolve_who(w: &World, by: &Who, pre: &Obs, former: &[Addr]) -> Addr {
+    match by {
+        Who::Gov => pre.admin.as_ref().map(|a| Addr::unchecked(a.clone())).unwrap_or_else(|| w.govs[0].clone()),
+        Who::Former(k) => {
+            if former.is_empty() {
+                w.govs[*k as usize % 3].clone()
+            } else {
+                former[*k as usize % former.len()].clone()
+            }
+        }
+        Who::User(i) => w.users[*i as usize % N_USERS].clone(),
+    }
+}
+
+/// every payout / refund sub-message carries the token's allow-list limit, else the default (C18)
+fn check_gas(prop: &str, w: &World, pre: &Obs, subs: &[SubLog], at: &str, ctx: &mut CaseCtx, allow_changed: bool) -> Result<(), Violation> {
+    for s in subs {
+        match &s.msg {
+            cosmwasm_std::CosmosMsg::Wasm(WasmMsg::Execute { contract_addr, .. }) => {
+                if !w.cw20.iter().any(|c| c.as_str() == contract_addr) {
+                    continue;
+                }
+                let want = match pre.allowed.get(contract_addr) {
+                    Some(limit) => *limit,
+                    None => pre.cfg.default_gas_limit,
+                };
+                if s.gas_limit != want {
+                    return Err(v(prop, "payout-gas-limit", format!("{at}: payout sub-call to {contract_addr} issued with gas limit {:?}, expected {:?} (allow list entry {:?}, default {:?})", s.gas_limit, want, pre.allowed.get(contract_addr), pre.cfg.default_gas_limit)));
+                }
+                ctx.count("cw20_payouts_checked");
+                if allow_changed {
+                    ctx.flag("payout_after_change");
+                }
+            }
+            cosmwasm_std::CosmosMsg::Bank(_) => {
+                if s.gas_limit.is_some() {
+                    return Err(v(prop, "payout-gas-limit", format!("{at}: native payout issued with gas limit {:?}", s.gas_limit)));
+                }
+            }
+            _ => {}
+        }
+    }
+    Ok(())
+}
+
+#[allow(clippy::too_many_arguments)]
+fn check_state(prop: &str, w: &World, o: &Obs, sent: &[[u128; N_TOK]], failed: &[[u128; N_TOK]], redeemed: &[[u128; N_TOK]], escrowed: &[[u128; N_TOK]], paid: &[[u128; N_TOK]], at: &str, ctx: &mut CaseCtx) -> Result<(), Violation> {
+    match prop {
+        "C11" => {
+            for tok in 0..N_TOK {
+                let denom = w.local_denom(tok);
+                let mut sum: u128 = 0;
+                let mut carrying = 0;
+                for ch in 0..w.n_ch {
+                    let out = World::outstanding(o, ch, &denom);
+                    if out > 0 {
+                        carrying += 1;
+                    }
+                    sum = sum.checked_add(out).ok_or_else(|| v(prop, "outstanding-overflow", format!("{at}: sum of outstanding balances overflows")))?;
+                    if paid[ch][tok] > escrowed[ch][tok] {
+                        return Err(v(prop, "paid-exceeds-escrowed", format!("{at}: channel {ch} has paid out {} of {denom} but only {} was ever escrowed on it", paid[ch][tok], escrowed[ch][tok])));
+                    }
+                }
+                if carrying >= 2 {
+                    ctx.flag("same_token_two_channels");
+                }
+                if o.hold[tok] < sum {
+                    return Err(v(prop, "escrow-below-outstanding", format!("{at}: the contract holds {} of {denom} but reports {} outstanding over its channels", o.hold[tok], sum)));
+                }
+            }
+        }
+        "C12" => {
+            for ch in 0..w.n_ch {
+                for tok in 0..N_TOK {
+                    let denom = w.local_denom(tok);
+                    let out = World::outstanding(o, ch, &denom);
+                    let want = sent[ch][tok].checked_sub(failed[ch][tok]).and_then(|x| x.checked_sub(redeemed[ch][tok]));
+                    if want != Some(out) {
+                        return Err(v(prop, "balance-identity", format!("{at}: channel {ch} {denom}: outstanding {out} != sent {} - failed/timed out {} - redeemed {}", sent[ch][tok], failed[ch][tok], redeemed[ch][tok])));
+                    }
+                }
+                for d in o.chans[ch].keys() {
+                    if !(0..N_TOK).any(|t| w.local_denom(t) == *d) {
+                        return Err(v(prop, "unknown-denom-in-channel", format!("{at}: channel {ch} reports a balance for unknown denom {d}")));
+                    }
+                }
+            }
+        }
+        _ => {}
+    }
+    Ok(())
+}
+
+// ------------------------------------------------------------------ family
+
+pub struct Ics20Family;
+
+const ASSUME: &[&str] = &[
+    "cw-multi-test 2.0.0 + the harness' sudo shim stand for wasmd/IBC core: sub-messages are dispatched atomically, `reply` runs on failure and its data overrides the acknowledgement; gas limits are recorded, not enforced",
+    "IBC core is honest: packets arrive on connected channels with src = the channel's counterparty endpoint, each sent packet gets at most one ack or timeout carrying the original packet bytes; the counterparty's packet contents are arbitrary (C11) or follow the honest voucher model (C12)",
+    "native denoms never start with 'cw20:'",
+    "legacy storage images (0.11.1 / 0.12.1 / 0.13.0) are fabricated from frozen layouts; one channel, as the migration requires",
+];
+
+impl Family for Ics20Family {
+    type Case = Case;
+    fn name(&self) -> &'static str {
+        "ics20"
+    }
+    fn props(&self) -> Vec<PropSpec> {
+        vec![
+            PropSpec { id: "C11", quick_cases: 1600, thorough_cases: 7000, floor: 40, rule: "case = 1-3 channels, allow list, default gas limit, up to 36 (thorough 90) ops: native and cw20 transfers (amounts up to and above 2^64-1), incoming packets from a malicious counterparty (denom forms: right prefix, bare, wrong port, wrong channel, another channel's prefix, nested, unknown base; amounts around / above the outstanding balance, 0, > 2^64; valid and invalid receivers; raw garbage), deliver / ack success / ack error / timeout per sent packet in any order, payout and refund sub-calls failing on demand (blocked bank recipient, flaky cw20); oracle: real holdings >= sum over channels of reported outstanding per token and paid <= escrowed per (channel, token), foreign / excess packets release nothing, error acks move nothing. Non-trivial: >=1 redeeming packet, >=1 processed refund and (an injected payout/refund failure or one token outstanding on two channels).", assumptions: ASSUME },
+            PropSpec { id: "C12", quick_cases: 1600, thorough_cases: 7000, floor: 60, rule: "as C11 with an honest counterparty model (vouchers minted on delivery, only held vouchers returned), governance changes (Allow, UpdateAdmin, migrate) and a 30% upgrade arm starting from a fabricated 0.11.1 / 0.12.1 / 0.13.0 storage image (acked sends booked, in-flight sends held but unbooked, cw20 tokens possibly absent from the allow list) that is migrated first; oracle: outstanding == sent - failed/timed-out - redeemed per (channel, denom) after every op; receive never aborts and always acks; success ack => full payout and balance reduced; error ack => all channel states, holdings and user balances unchanged; every accepted transfer emits exactly one packet with amount == escrowed funds (<= 2^64-1), denom, true sender, receiver, memo, timeout == block time + requested-or-default. Non-trivial: >=1 success ack and >=1 error ack on incoming packets.", assumptions: ASSUME },
+            PropSpec { id: "C18", quick_cases: 2000, thorough_cases: 8000, floor: 40, rule: "case with sparse initial allow list and default gas limit, ops weighted to Allow (new / raise / lower / some->none / none->some), UpdateAdmin, migrate, cw20 transfers and packets that trigger payouts, by governance, former governance and strangers; oracle: allow list / admin change only in successful calls of the pre-call governance address, set only grows, per-token limit never decreases (none = unlimited), default never unset, cw20 transfer accepted only if allowed or default set, every cw20 payout/refund sub-message carries the token's current limit else the default (native: none). Non-trivial: >= 2 of {accepted raise, refused lowering, cw20 payout after a change, attempt by former governance}.", assumptions: ASSUME },
+        ]
+    }
+    fn strategy(&self, prop: &str, tier: Tier) -> BoxedStrategy<Case> {
+        case_strategy(prop, tier)
+    }
+    fn run(&self, prop: &str, case: &Case, ctx: &mut CaseCtx) -> Result<(), Violation> {
+        run_case(prop, case, ctx)
+    }
+}
